@@ -16,8 +16,90 @@ func (r refValue) Storable(atree.SlabStorage, atree.Address, uint32) (atree.Stor
 	return atree.SlabIDStorable(r.id), nil
 }
 
+// orderedStorage is a SlabStorage (public interface) over a BasicSlabStorage whose slab iterator
+// yields the slabs in a chosen order: the health check must not depend on the iteration order.
+type orderedStorage struct {
+	*atree.BasicSlabStorage
+	mode int // 0 ascending ids, 1 descending, k>=2: ascending rotated by k-1
+}
+
+func (o *orderedStorage) SlabIterator() (atree.SlabIterator, error) {
+	ids := make([]atree.SlabID, 0, len(o.Slabs))
+	for id := range o.Slabs {
+		ids = append(ids, id)
+	}
+	SortIDs(ids)
+	switch {
+	case o.mode == 1:
+		for i, j := 0, len(ids)-1; i < j; i, j = i+1, j-1 {
+			ids[i], ids[j] = ids[j], ids[i]
+		}
+	case o.mode >= 2 && len(ids) > 0:
+		r := (o.mode - 1) % len(ids)
+		ids = append(append([]atree.SlabID{}, ids[r:]...), ids[:r]...)
+	}
+	i := 0
+	return func() (atree.SlabID, atree.Slab) {
+		if i >= len(ids) {
+			return atree.SlabIDUndefined, nil
+		}
+		id := ids[i]
+		i++
+		return id, o.Slabs[id]
+	}, nil
+}
+
+// basicFromStorage copies every live slab of a persistent storage (write set over ledger) into a basic storage.
+func basicFromStorage(st *atree.PersistentSlabStorage, l *Ledger) (*atree.BasicSlabStorage, error) {
+	bs := atree.NewBasicSlabStorage(encMode, decMode, DecodeStorable, DecodeTypeInfo)
+	_, deltas := atree.VerifStorageLayers(st)
+	ids := map[atree.SlabID]bool{}
+	for id := range l.Regs {
+		ids[id] = true
+	}
+	for id, s := range deltas {
+		if s == nil {
+			delete(ids, id)
+		} else {
+			ids[id] = true
+		}
+	}
+	for id := range ids {
+		s, ok, err := st.Retrieve(id)
+		if err != nil || !ok {
+			return nil, fmt.Errorf("retrieve %s: %v %v", id, ok, err)
+		}
+		bs.Slabs[id] = s
+	}
+	return bs, nil
+}
+
+// mustFailAllOrders runs the health check over a copy of st's slabs under several iteration orders.
+func mustFailAllOrders(st *atree.PersistentSlabStorage, l *Ledger, expected int, what string) error {
+	bs, err := basicFromStorage(st, l)
+	if err != nil {
+		return fmt.Errorf("harness: %w", err)
+	}
+	n := len(bs.Slabs)
+	modes := []int{0, 1}
+	for k := 2; k <= n && k <= 8; k++ {
+		modes = append(modes, k)
+	}
+	for _, mode := range modes {
+		os := &orderedStorage{BasicSlabStorage: bs, mode: mode}
+		if _, err := atree.CheckStorageHealth(os, expected); err == nil {
+			return violf("CheckStorageHealth succeeds although %s (slab iteration order variant %d)", what, mode)
+		}
+	}
+	return nil
+}
+
 func loadAll(l *Ledger) (*atree.PersistentSlabStorage, error) {
 	st := NewStorage(l)
+	if len(ledgerOf) > 64 {
+		ledgerOf = map[*atree.PersistentSlabStorage]*Ledger{}
+	}
+	ledgerOf[st] = l
 	if err := st.BatchPreload(l.SortedIDs(), 1); err != nil {
 		return nil, err
 	}
@@ -128,6 +210,11 @@ func OHealthExact(w *World) error {
 	if err := checkHealthy(bs, "basic storage"); err != nil {
 		return err
 	}
+	for _, mode := range []int{0, 1, 2, 3} {
+		if err := checkHealthy(&orderedStorage{BasicSlabStorage: bs, mode: mode}, fmt.Sprintf("basic storage, iteration order variant %d", mode)); err != nil {
+			return err
+		}
+	}
 	// all-child-references on the healthy storage
 	for _, r := range wk.Recs {
 		refs, broken, err := st.GetAllChildReferences(r.ID)
@@ -204,6 +291,11 @@ func OHealthExact(w *World) error {
 		if err := mustFail(bs2, n, what+"deleted (basic storage)"); err != nil {
 			return err
 		}
+		for _, mode := range []int{0, 1, 2, 3} {
+			if _, err := atree.CheckStorageHealth(&orderedStorage{BasicSlabStorage: bs2, mode: mode}, n); err == nil {
+				return violf("CheckStorageHealth succeeds although %sdeleted (slab iteration order variant %d)", what, mode)
+			}
+		}
 	}
 
 	// 3. an unreferenced slab beyond the expected root count
@@ -258,6 +350,9 @@ func OHealthExact(w *World) error {
 			if err := mustFail(st6, n, fmt.Sprintf("slab %s is referenced from two places (second reference added to root %s)", target, host.SID)); err != nil {
 				return err
 			}
+			if err := mustFailAllOrders(st6, st6Ledger(st6), n, fmt.Sprintf("slab %s is referenced from two places (second reference added to root %s)", target, host.SID)); err != nil {
+				return err
+			}
 		}
 	}
 
@@ -298,6 +393,9 @@ func OHealthExact(w *World) error {
 		if err := mustFail(st7, n, fmt.Sprintf("root %s references a slab owned by a different address", host.SID)); err != nil {
 			return err
 		}
+		if err := mustFailAllOrders(st7, st6Ledger(st7), n, fmt.Sprintf("root %s references a slab owned by a different address", host.SID)); err != nil {
+			return err
+		}
 	}
 	return nil
 }
@@ -336,3 +434,10 @@ func init() {
 		r.ExploreSpecs(specs)
 	}})
 }
+
+// st6Ledger returns the ledger a storage built by loadAll sits on.
+func st6Ledger(st *atree.PersistentSlabStorage) *Ledger {
+	return ledgerOf[st]
+}
+
+var ledgerOf = map[*atree.PersistentSlabStorage]*Ledger{}
